@@ -211,6 +211,8 @@ def main(tier: str) -> int:
             def wsm(cur, best, popg, F_, _sm=_sm):
                 if not np.array_equal(np.asarray(best), np.asarray(o._thefittest._genotype)) and not any(v[0] == "best" for v in viol):
                     viol.append(("best", {"handed_as_best": np.asarray(best).tolist(), "best_so_far": np.asarray(o._thefittest._genotype).tolist()}))
+                if cls is DifferentialEvolution and F is not None and float(F_) != float(F) and not any(v[0] == "F" for v in viol):
+                    viol.append(("F", {"configured_F": float(F), "F_handed_to_the_strategy": float(F_)}))
                 return _sm(cur, best, popg, F_)
             o._mutation_pool = dict(o._mutation_pool)
             o._mutation_pool[o._specified_mutation] = wsm
@@ -235,7 +237,7 @@ def main(tier: str) -> int:
                     strategies = [strategies[(bi + run_id) % len(strategies)]]
                 for strategy in strategies:
                     for F, CR in (((0.5, 0.5), (1.0, 1.0), (0.0, 0.0)) if cls is DifferentialEvolution else ((None, None),)):
-                        if tier == "quick" and cls is DifferentialEvolution and (F, CR) != (0.5, 0.5) and oname != "sum_abs":
+                        if tier == "quick" and cls is DifferentialEvolution and (F, CR) != (0.5, 0.5) and oname != "sum_abs" and not ((F, CR) == (0.0, 0.0) and bi == 0):
                             continue
                         run_id += 1
                         viol, recs = run(cls, box, oname, F, CR, strategy, chk.seed * 1000 + run_id, elit=(run_id % 2 == 0))
@@ -243,6 +245,10 @@ def main(tier: str) -> int:
                         d = {"optimizer": cls.__name__, "left": np.asarray(box[0]).tolist(), "right": np.asarray(box[1]).tolist(), "num_variables": box[2],
                              "objective": oname, "F": F, "CR": CR, "strategy": strategy, "seed": chk.seed * 1000 + run_id}
                         chk.case(("run", cls.__name__, bi, oname, strategy, F, CR), sample=d if len(chk.samples) < 5 else None)
+                        if any(v[0] == "F" for v in viol):
+                            vf = next(v for v in viol if v[0] == "F")
+                            chk.fail("the donor is not scaled by the configured F", {**d, **vf[1]}, {"fn": "donor", "clause": "F", "optimizer": cls.__name__})
+                            viol = [v for v in viol if v[0] != "F"]
                         if any(v[0] == "best" for v in viol):
                             vb = next(v for v in viol if v[0] == "best")
                             chk.fail("the vector handed to the donor strategy as 'the best' is not the best individual found so far",
@@ -276,8 +282,17 @@ def main(tier: str) -> int:
         o = SHADE(fitness_function=rastrigin, iters=12, pop_size=pop, left_border=-5.12, right_border=5.12, num_variables=4, random_state=chk.seed + sd, keep_history=True)
         saved_pb = SHM.current_to_pbest_1_archive_p_min
         stale = []
+        pool_bad = []
 
         def wpb(ind, popg, pbest, F, arch, _o=saved_pb, _oo=o, _pop=pop):
+            # the pool "population U archive" handed to the strategy holds only current members and archive members
+            if not pool_bad:
+                cur = {tuple(r) for r in np.asarray(_oo._population_g_i).tolist()}
+                arc = {tuple(r) for r in np.asarray(_oo._population_g_archive_i).tolist()}
+                for ri, row in enumerate(np.asarray(arch).tolist()):
+                    if tuple(row) not in cur and tuple(row) not in arc:
+                        pool_bad.append({"generation": len(_oo.get_stats()["fitness"]) + 1, "row_of_the_pool": ri, "vector": row})
+                        break
             k = max(1, int(0.05 * _pop))
             fitn = np.asarray(_oo._fitness_i, dtype=np.float64)
             kth = np.sort(fitn)[-k]
@@ -293,6 +308,9 @@ def main(tier: str) -> int:
             SHM.current_to_pbest_1_archive_p_min = saved_pb
         chk.count("shade_pbest")
         chk.case(("shade_pbest", pop, sd))
+        if pool_bad:
+            chk.fail("the pool handed to SHADE's strategy contains a vector that is neither a member of the current population nor of the archive",
+                     {"optimizer": "SHADE", "pop_size": pop, "objective": "rastrigin", "elitism": True, **pool_bad[0]}, {"fn": "SHADE", "clause": "pool"})
         if stale:
             chk.fail("a SHADE donor is built from a member that is not among the p-best of the current population",
                      {"optimizer": "SHADE", "pop_size": pop, "objective": "rastrigin", **stale[0]}, {"fn": "SHADE", "clause": "pbest_current"})
